@@ -19,7 +19,7 @@ class Sigma:
     def upto(self, *args):
         ps, k = args[:-1], args[-1]
         zs = [to_z3(p) for p in ps]
-        self.eng.assume(self.uf(*(zs + [z3.IntVal(0)])) == 0)
+        self.eng.axiom(self.uf(*(zs + [z3.IntVal(0)])) == 0)
         return Num(self.uf(*(zs + [to_z3(k)])))
 
     def unfold(self, *args):
@@ -27,4 +27,4 @@ class Sigma:
         zs = [to_z3(p) for p in ps]
         kt = to_z3(k)
         t = self.term(*args)
-        self.eng.assume(z3.Implies(kt >= 0, self.uf(*(zs + [kt + 1])) == self.uf(*(zs + [kt])) + to_real(to_z3(lift(t)))))
+        self.eng.axiom(z3.Implies(kt >= 0, self.uf(*(zs + [kt + 1])) == self.uf(*(zs + [kt])) + to_real(to_z3(lift(t)))))
